@@ -607,6 +607,28 @@ func snappyStream(o *vlib.Oracle, g *vlib.Rng, thorough bool, nrand int, fail fu
 			eval("snappy-roundtrip", fmt.Sprintf("%s-%d-%x", k, n, fnv(b)))
 		}
 	}
+	// directed: periodic data with period P (matches at offset exactly P) broken every few bytes, so that copies
+	// of every length 4..11 (2-byte tag iff offset < 2048) and longer (3-byte tags, 64/60 splitting) are emitted
+	for _, P := range []int{1, 2, 3, 4, 5, 7, 8, 9, 255, 256, 257, 1023, 1024, 2040, 2046, 2047, 2048, 2049, 2050, 4095, 4096, 16383, 16384, 32768, 60000, 65000} {
+		for _, gap := range []int{0, 6, 9, 13, 30, 70, 140} {
+			n := P + 2500
+			if n > 65536 {
+				n = 65536
+			}
+			b := make([]byte, n)
+			copy(b, g.Bytes(min(P, n)))
+			next := P + 4 + g.Intn(8)
+			for i := P; i < n; i++ {
+				b[i] = b[i-P]
+				if gap > 0 && i == next {
+					b[i] ^= byte(1 + g.Intn(255))
+					next = i + 5 + g.Intn(gap)
+				}
+			}
+			snappyRoundTrip(o, fmt.Sprintf("period-%d-gap-%d", P, gap), b, fail, ok, hit)
+			eval("snappy-roundtrip", fmt.Sprintf("period-%d-%d-%x", P, gap, fnv(b)))
+		}
+	}
 	for i := 0; i < nrand; i++ {
 		n := g.Intn(3000)
 		if g.Chance(1, 10) {
@@ -719,6 +741,9 @@ func main() {
 		}
 		if doc.Replay.Snappy != nil {
 			x.replaySnappy(doc.Replay.Snappy)
+			if !pureGo {
+				x.runNoasmChild()
+			}
 		}
 		finish(rule, "replay of "+r.Replay)
 		return
@@ -833,6 +858,27 @@ func runChild(r *vlib.Run, o *vlib.Oracle) {
 			}{kind, key + "-purego", what + " [pure-Go build, -tags noasm]", c})
 		}
 	}
+	if r.Replay != "" {
+		var doc struct {
+			Replay struct {
+				Snappy *snappyCase `json:"snappy"`
+			} `json:"replay"`
+		}
+		if b, err := os.ReadFile(r.Replay); err == nil && json.Unmarshal(b, &doc) == nil && doc.Replay.Snappy != nil {
+			c := doc.Replay.Snappy
+			if c.Enc != "" {
+				b, _ := hex.DecodeString(c.Enc)
+				snappyDecodeCase(o, c.Name, b, fail, func() { res.OK++ }, func(k string) { res.Hits[k]++ })
+			} else {
+				b, _ := hex.DecodeString(c.Src)
+				snappyRoundTrip(o, c.Name, b, fail, func() { res.OK++ }, func(k string) { res.Hits[k]++ })
+			}
+			res.Evals++
+		}
+		js, _ := json.Marshal(res)
+		fmt.Println(string(js))
+		return
+	}
 	for _, hx := range snappyCorpusDec {
 		b, _ := hex.DecodeString(hx)
 		snappyDecodeCase(o, "corpus", b, fail, func() { res.OK++ }, func(k string) { res.Hits[k]++ })
@@ -857,7 +903,8 @@ func (x *runner) runNoasmChild() {
 			args = append(args, "-modfile="+mf)
 		}
 	}
-	bin := root + "/.work/bin/c16_noasm" + suf
+	bin := fmt.Sprintf("%s/.work/bin/c16_noasm%s.%d", root, suf, os.Getpid())
+	defer os.Remove(bin)
 	args = append(args, "-tags", "verif noasm", "-o", bin, "./cmd/c16")
 	cmd := exec.Command("go", args...)
 	cmd.Dir = root + "/go"
@@ -866,7 +913,11 @@ func (x *runner) runNoasmChild() {
 		r.TieFail("noasm-build", "the pure-Go (noasm) variant of the harness does not build: "+short(string(out)), "go "+strings.Join(args, " "))
 		return
 	}
-	c := exec.Command(bin, "-snappychild", "-tier", r.Tier)
+	cargs := []string{"-snappychild", "-tier", r.Tier}
+	if r.Replay != "" {
+		cargs = append(cargs, "-replay", r.Replay)
+	}
+	c := exec.Command(bin, cargs...)
 	c.Env = os.Environ()
 	out, err := c.Output()
 	var res childResult
